@@ -50,6 +50,8 @@ var (
 	pB0b  = u.F("pB0b", "", "B")                   // a second provider of B
 	fGH   = u.F("fGH", "{A*h}", "A", u.Group("g")) // member of g that consumes group h
 	fHb   = u.F("fHb", "", "A", u.Group("h"))
+	fAsII = u.F("fAsII", "", "A", u.Group("g"), u.As("IA", "IAB")) // member of g under two interfaces
+	iGII  = u.F("iGII", "{IAB*g}", "")
 	iGI   = u.F("iGI", "{IA*g}", "")
 	iGH   = u.F("iGH", "{A*h}", "")
 	iGB   = u.F("iGB", "{B*g}", "")
@@ -109,7 +111,7 @@ func mkUnits(monitors []explore.Monitor) (add func(name string, cfg h.Config, pl
 // ---------------------------------------------------------------- C02
 
 func c02Units(tier string) []Unit {
-	add, get := mkUnits([]explore.Monitor{singletonMonitor("C02"), resolutionMonitor("C02")})
+	add, get := mkUnits([]explore.Monitor{singletonMonitor("C02"), stabilityMonitor("C02"), resolutionMonitor("C02")})
 	q := quick(tier)
 	d := 7
 	inv := 3
@@ -137,6 +139,10 @@ func c02Units(tier string) []Unit {
 				decos: []*uFunc{dA}, invokes: []*uFunc{iA, iB, iC}}, d, explore.Budget{Provides: 3, Decorates: 1, Invokes: inv, Rejected: 0})
 		}
 	}
+	// decorators of one key at two levels of a three-scope chain, demanded from
+	// the leaf and from the middle in every order
+	add("decorators-three-levels", h.Config{}, nil, prefixChain, alpha{scopes: []int{0, 1, 2}, ctors: []*uFunc{pA},
+		decos: []*uFunc{dA, dA0}, invokes: []*uFunc{iA}}, 7, explore.Budget{Provides: 1, Decorates: 2, Invokes: 4, Rejected: 0})
 	// the decorated group demanded again, from a scope further down, while its
 	// decorator is being built (exported constructor resolving below the
 	// decorating scope)
@@ -179,6 +185,10 @@ func c03Units(tier string) []Unit {
 			decos: []*uFunc{dG}, invokes: []*uFunc{iGs, iG, iB, iC, iS1}, visualize: true}, d, b)
 		add("optional-providers"+tag, cfg, nil, prefixChild, alpha{scopes: []int{0, 1}, ctors: []*uFunc{pA, pBo, pCob, pCb, pDd},
 			invokes: []*uFunc{iCo, iC, iBo}}, d, b)
+		// group members registered under several interfaces (As): reaching the
+		// group through any one of them runs the feeder
+		add("group-as"+tag, cfg, nil, prefixChild, alpha{scopes: []int{0, 1}, ctors: []*uFunc{fAsII, fAs, fG1}, export: true,
+			invokes: []*uFunc{iGI, iGII, iG}}, d, b)
 		// decorators of one key at two levels (consuming the key or replacing
 		// it): only the nearest one and what it asks for may run
 		add("decorator-levels"+tag, cfg, nil, prefixChild, alpha{scopes: []int{0, 1}, ctors: []*uFunc{pA, pDd},
@@ -335,8 +345,8 @@ func c10Units(tier string) []Unit {
 	}
 	add("flatten", h.Config{}, nil, prefixChild, alpha{scopes: []int{0, 1}, ctors: []*uFunc{fG1, fFl0, fFl1, fFl2, fFlo}, export: true,
 		invokes: []*uFunc{iG, iGG}}, d, b)
-	add("as", h.Config{}, nil, prefixChild, alpha{scopes: []int{0, 1}, ctors: []*uFunc{fG1, fAs, fBg}, export: true,
-		invokes: []*uFunc{iG, iGI, iGB}}, d, b)
+	add("as", h.Config{}, nil, prefixChild, alpha{scopes: []int{0, 1}, ctors: []*uFunc{fG1, fAs, fAsII, fBg}, export: true,
+		invokes: []*uFunc{iG, iGI, iGII, iGB}}, d, b)
 	add("defer/plain", h.Config{Defer: true}, nil, prefixChild, alpha{scopes: []int{0, 1}, ctors: []*uFunc{fG1, fG2, fFl2, pG}, export: true,
 		invokes: []*uFunc{iG, iC}}, d, b)
 	return get()
